@@ -357,7 +357,13 @@ func (vc *FnVC) autoInvariants(h *ssa.BasicBlock, st *State) []string {
 				continue
 			}
 			mt, isMap := rg.X.Type().Underlying().(*types.Map)
-			if !isMap || vc.loops[h] == nil || vc.loops[h].body[p] {
+			if vc.loops[h] == nil || vc.loops[h].body[p] {
+				continue
+			}
+			if !isMap {
+				// range over a string: 0 <= position <= len
+				pc := vc.cur(st, vc.posCompFor(rg))
+				out = append(out, and("(<= 0 "+pc+")", "(<= "+pc+" (str.len "+vc.term(rg.X).S+"))"))
 				continue
 			}
 			c := vc.seenCompFor(rg)
@@ -456,6 +462,9 @@ func (vc *FnVC) loopEnv(h *ssa.BasicBlock, st *State) *Env {
 				if comp, ok := vc.rangeSeen[rg]; ok {
 					env.seenComp = comp
 				}
+				if _, isMap := rg.X.Type().Underlying().(*types.Map); !isMap {
+					env.vars["#pos"] = Val{k: vTerm, tv: TV{S: vc.cur(st, vc.posCompFor(rg)), Sort: sInt, Ty: types.Typ[types.Int]}}
+				}
 			}
 		}
 	}
@@ -500,11 +509,15 @@ func (vc *FnVC) loopModifies(li *loopInfo) (comps []string, all bool, keep []str
 			case *ssa.Range:
 				if _, ok := x.X.Type().Underlying().(*types.Map); ok {
 					set[vc.seenCompFor(x)] = true
+				} else {
+					set[vc.posCompFor(x)] = true
 				}
 			case *ssa.Next:
 				if rg, ok := x.Iter.(*ssa.Range); ok {
 					if _, ok := rg.X.Type().Underlying().(*types.Map); ok {
 						set[vc.seenCompFor(rg)] = true
+					} else {
+						set[vc.posCompFor(rg)] = true
 					}
 				}
 			case ssa.CallInstruction:
@@ -681,7 +694,6 @@ func (vc *FnVC) doReturn(x *ssa.Return, st *State) {
 		}
 	}
 	for i, cl := range vc.fc.Ensures {
-		t := vc.trBool(cl.E, env)
 		tags := cl.Tags
 		if len(tags) == 0 {
 			tags = vc.fnTags()
@@ -690,7 +702,17 @@ func (vc *FnVC) doReturn(x *ssa.Return, st *State) {
 		if cl.Name != "" {
 			d = cl.Name
 		}
-		vc.oblige("post", d, t, tags, cl.Src)
+		// split the clause into separately named obligations: both directions of an
+		// equivalence, and each conjunct of a consequent
+		parts := vc.splitClause(cl.E)
+		for _, pt := range parts {
+			t := vc.trBool(pt.e, env)
+			dd := d
+			if pt.label != "" {
+				dd = d + "." + pt.label
+			}
+			vc.oblige("post", dd, t, tags, cl.Src)
+		}
 	}
 	vc.smoke(fmt.Sprintf("return@b%d", vc.curBlock.Index))
 }
@@ -716,4 +738,79 @@ func (vc *FnVC) materialize(st *State) {
 			st.comp[c] = vc.compInit(st, c)
 		}
 	}
+}
+
+type clausePart struct {
+	label string
+	e     Expr
+}
+
+// splitClause: A <==> B becomes A ==> B ("fwd") and B ==> A ("bwd"); X ==> (C1 && ... && Cn)
+// becomes X ==> Ci ("ci"), looking one level into spec functions whose body is a conjunction.
+func (vc *FnVC) splitClause(e Expr) []clausePart {
+	if b, ok := e.(*EBin); ok && b.Op == "<==>" {
+		var out []clausePart
+		for _, p := range vc.splitImpl(b.L, b.R) {
+			l := "fwd"
+			if p.label != "" {
+				l += "." + p.label
+			}
+			out = append(out, clausePart{l, p.e})
+		}
+		out = append(out, clausePart{"bwd", &EBin{Op: "==>", L: b.R, R: b.L}})
+		return out
+	}
+	if b, ok := e.(*EBin); ok && b.Op == "==>" {
+		return vc.splitImpl(b.L, b.R)
+	}
+	return []clausePart{{"", e}}
+}
+
+func (vc *FnVC) splitImpl(ante, cons Expr) []clausePart {
+	cs := vc.conjuncts(cons, 2)
+	if len(cs) <= 1 {
+		return []clausePart{{"", &EBin{Op: "==>", L: ante, R: cons}}}
+	}
+	var out []clausePart
+	for i, c := range cs {
+		out = append(out, clausePart{fmt.Sprintf("c%d", i+1), &EBin{Op: "==>", L: ante, R: c}})
+	}
+	return out
+}
+
+// conjuncts flattens top-level && and unfolds (depth times) calls of spec functions whose body
+// is itself a conjunction, substituting arguments syntactically through let-bindings.
+func (vc *FnVC) conjuncts(e Expr, depth int) []Expr {
+	switch n := e.(type) {
+	case *EBin:
+		if n.Op == "&&" {
+			return append(vc.conjuncts(n.L, depth), vc.conjuncts(n.R, depth)...)
+		}
+	case *ECall:
+		if depth > 0 {
+			if id, ok := n.Fun.(*EIdent); ok {
+				if sd, ok := vc.prog.cs.Specs[id.Name]; ok && sd.Body != nil && len(sd.Params) == len(n.Args) {
+					if b, ok := sd.Body.(*EBin); ok && b.Op == "&&" {
+						inner := vc.conjuncts(sd.Body, depth-1)
+						var out []Expr
+						for _, c := range inner {
+							// bind parameters: let p := arg in c   (renamed to avoid capture)
+							w := c
+							ren := map[string]string{}
+							for _, p := range sd.Params {
+								ren[p.Name] = "$" + sd.Name + "$" + p.Name
+							}
+							w = renameIdents(w, ren)
+							for k := len(sd.Params) - 1; k >= 0; k-- {
+								w = &ELet{Name: ren[sd.Params[k].Name], Val: n.Args[k], Body: w}
+							}
+							out = append(out, &ESpecScope{Spec: sd, X: w})
+						}
+						return out
+					}
+				}
+			}
+		}
+	}
+	return []Expr{e}
 }
